@@ -74,16 +74,20 @@ def closure(funcs, entry_pred):
     return out
 
 
-def analyse_function(fn):
-    """returns list of (lineno, description) of effects on parameter-reachable objects"""
+def _params_of(fn):
     a = fn.args
-    tainted = {x.arg for x in a.posonlyargs + a.args + a.kwonlyargs}
-    if a.vararg: tainted.add(a.vararg.arg)
-    if a.kwarg: tainted.add(a.kwarg.arg)
-    findings = []
-    # nested functions are analysed separately, but see the enclosing tainted names (closures)
-    changed = True
+    names = {x.arg for x in a.posonlyargs + a.args + a.kwonlyargs}
+    if a.vararg: names.add(a.vararg.arg)
+    if a.kwarg: names.add(a.kwarg.arg)
+    return names
+
+
+def _taint_everywhere(fn, tainted):
+    """flow-insensitive closure of `tainted` under aliasing over the whole function (used for nested functions, whose
+    call time is unknown)"""
+    tainted = set(tainted)
     body_nodes = [n for n in ast.walk(fn)]
+    changed = True
     while changed:
         changed = False
         for n in body_nodes:
@@ -93,35 +97,171 @@ def analyse_function(fn):
             elif isinstance(n, ast.AnnAssign) and n.value is not None:
                 changed |= _alias(n.target, n.value, tainted)
             elif isinstance(n, (ast.For, ast.comprehension)):
-                it = n.iter
-                if isinstance(it, ast.Call) and isinstance(it.func, ast.Attribute) and it.func.attr in ("items", "values") \
-                        and access_root(it.func.value) in tainted:
-                    for nm in ast.walk(n.target):
-                        if isinstance(nm, ast.Name) and nm.id not in tainted:
-                            tainted.add(nm.id); changed = True
-                elif access_root(it) in tainted:
-                    for nm in ast.walk(n.target):
-                        if isinstance(nm, ast.Name) and nm.id not in tainted:
-                            tainted.add(nm.id); changed = True
-    for n in body_nodes:
-        if isinstance(n, (ast.Assign, ast.AugAssign, ast.AnnAssign)):
-            targets = n.targets if isinstance(n, ast.Assign) else [n.target]
-            for t in targets:
-                for tt in _flatten_targets(t):
-                    if isinstance(tt, (ast.Attribute, ast.Subscript)) and access_root(tt) in tainted:
-                        findings.append((n.lineno, f"store `{ast.unparse(tt)} = ...` on an object reachable from parameter "
-                                                   f"`{access_root(tt)}`"))
-        elif isinstance(n, ast.Delete):
-            for t in n.targets:
-                if isinstance(t, (ast.Attribute, ast.Subscript)) and access_root(t) in tainted:
-                    findings.append((n.lineno, f"`del {ast.unparse(t)}` on an object reachable from parameter `{access_root(t)}`"))
-        elif isinstance(n, ast.Call) and isinstance(n.func, ast.Attribute) and n.func.attr in MUTATORS:
+                changed |= _taint_loop_target(n, tainted)
+    return tainted
+
+
+def _taint_loop_target(n, tainted):
+    it, ch = n.iter, False
+    hit = False
+    if isinstance(it, ast.Call) and isinstance(it.func, ast.Attribute) and it.func.attr in ("items", "values") \
+            and access_root(it.func.value) in tainted:
+        hit = True
+    elif access_root(it) in tainted:
+        hit = True
+    if hit:
+        for nm in ast.walk(n.target):
+            if isinstance(nm, ast.Name) and nm.id not in tainted:
+                tainted.add(nm.id); ch = True
+    return ch
+
+
+def _effects_in_expr(e, tainted, findings):
+    """mutating calls inside an expression (comprehensions bind their targets in a copy of the state)"""
+    for n in ast.walk(e):
+        if isinstance(n, ast.Call) and isinstance(n.func, ast.Attribute) and n.func.attr in MUTATORS:
             r = access_root(n.func.value)
             if r in tainted:
                 findings.append((n.lineno, f"mutating call `{ast.unparse(n.func)}(...)` on an object reachable from parameter `{r}`"))
-        elif isinstance(n, (ast.Global, ast.Nonlocal)):
-            findings.append((n.lineno, f"`{type(n).__name__.lower()} {', '.join(n.names)}`"))
-    return findings
+
+
+def analyse_function(fn, outer_tainted=()):
+    """returns list of (lineno, description) of effects on parameter-reachable objects.  Flow-sensitive over the statements of
+    the function: `name = <fresh value>` ends the aliasing of `name`, branches are analysed separately and joined, loop
+    bodies are iterated to a fixed point; nested functions see the flow-insensitive aliases of the enclosing function."""
+    params = _params_of(fn)
+    everywhere = _taint_everywhere(fn, set(params) | set(outer_tainted))
+    findings = []
+
+    def assign(target, value, state):
+        # kill then (maybe) re-taint
+        if isinstance(target, ast.Name):
+            state.discard(target.id)
+            _alias(target, value, state)
+        elif isinstance(target, (ast.Tuple, ast.List)):
+            if isinstance(value, (ast.Tuple, ast.List)) and len(value.elts) == len(target.elts):
+                for t, v in zip(target.elts, value.elts):
+                    assign(t, v, state)
+            else:
+                for t in _flatten_targets(target):
+                    if isinstance(t, ast.Name):
+                        # unpacking of a tainted container yields tainted elements
+                        if access_root(value) in state:
+                            state.add(t.id)
+                        else:
+                            state.discard(t.id)
+        if isinstance(target, (ast.Attribute, ast.Subscript)):
+            pass
+
+    def store_targets(n, state):
+        targets = n.targets if isinstance(n, ast.Assign) else [n.target]
+        for t in targets:
+            for tt in _flatten_targets(t):
+                if isinstance(tt, (ast.Attribute, ast.Subscript)) and access_root(tt) in state:
+                    findings.append((n.lineno, f"store `{ast.unparse(tt)} = ...` on an object reachable from parameter "
+                                               f"`{access_root(tt)}`"))
+
+    def block(stmts, state):
+        for st in stmts:
+            state = stmt(st, state)
+        return state
+
+    def stmt(st, state):
+        if isinstance(st, (ast.FunctionDef, ast.AsyncFunctionDef)):
+            for ln, d in analyse_function(st, everywhere):
+                findings.append((ln, d))
+            return state
+        if isinstance(st, ast.ClassDef):
+            return state
+        if isinstance(st, (ast.Assign, ast.AnnAssign, ast.AugAssign)):
+            value = getattr(st, 'value', None)
+            if value is not None:
+                _effects_in_expr(value, state, findings)
+                _lambdas(value)
+            store_targets(st, state)
+            if isinstance(st, ast.Assign):
+                for t in st.targets:
+                    assign(t, st.value, state)
+            elif isinstance(st, ast.AnnAssign) and st.value is not None:
+                assign(st.target, st.value, state)
+            return state
+        if isinstance(st, ast.Delete):
+            for t in st.targets:
+                if isinstance(t, (ast.Attribute, ast.Subscript)) and access_root(t) in state:
+                    findings.append((st.lineno, f"`del {ast.unparse(t)}` on an object reachable from parameter `{access_root(t)}`"))
+            return state
+        if isinstance(st, (ast.Global, ast.Nonlocal)):
+            findings.append((st.lineno, f"`{type(st).__name__.lower()} {', '.join(st.names)}`"))
+            return state
+        if isinstance(st, ast.If):
+            _effects_in_expr(st.test, state, findings)
+            a = block(st.body, set(state))
+            b = block(st.orelse, set(state))
+            return a | b
+        if isinstance(st, (ast.For, ast.AsyncFor, ast.While)):
+            cur = set(state)
+            for _ in range(4):
+                s0 = set(cur)
+                if isinstance(st, (ast.For, ast.AsyncFor)):
+                    _effects_in_expr(st.iter, s0, [])
+                    for nm in ast.walk(st.target):
+                        if isinstance(nm, ast.Name):
+                            s0.discard(nm.id)
+                    _taint_loop_target(st, s0)
+                probe = []
+                saved = list(findings)
+                s1 = block(st.body, s0)
+                del findings[len(saved):]
+                nxt = cur | s1
+                if nxt == cur:
+                    break
+                cur = nxt
+            s0 = set(cur)
+            if isinstance(st, (ast.For, ast.AsyncFor)):
+                _effects_in_expr(st.iter, s0, findings)
+                _taint_loop_target(st, s0)
+            else:
+                _effects_in_expr(st.test, s0, findings)
+            out = block(st.body, s0)
+            return block(st.orelse, cur | out)
+        if isinstance(st, (ast.With, ast.AsyncWith)):
+            for it in st.items:
+                _effects_in_expr(it.context_expr, state, findings)
+            return block(st.body, state)
+        if isinstance(st, ast.Try):
+            a = block(st.body, set(state))
+            outs = [a]
+            for h in st.handlers:
+                outs.append(block(h.body, set(state) | a))
+            o = set().union(*outs)
+            o = block(st.orelse, o)
+            return block(st.finalbody, o)
+        if isinstance(st, ast.Match):
+            outs = [set(state)]
+            for c in st.cases:
+                outs.append(block(c.body, set(state)))
+            return set().union(*outs)
+        # expression statements, return, raise, assert ...
+        for child in ast.iter_child_nodes(st):
+            if isinstance(child, ast.expr):
+                _effects_in_expr(child, state, findings)
+                _lambdas(child)
+        return state
+
+    def _lambdas(e):
+        for n in ast.walk(e):
+            if isinstance(n, ast.Lambda):
+                lam_params = _params_of(n)
+                st = everywhere | lam_params
+                _effects_in_expr(n.body, st, findings)
+
+    block(fn.body, set(params) | set(outer_tainted))
+    # unique, in source order
+    seen, out = set(), []
+    for f in sorted(findings):
+        if f not in seen:
+            seen.add(f); out.append(f)
+    return out
 
 
 def _flatten_targets(t):
